@@ -4,6 +4,7 @@ import Rio.Model.Warehouse
 import Rio.Model.Fetch
 import Rio.Model.Cache
 import Rio.Model.Kvfs
+import Rio.Model.Asm
 namespace Rio.Driver
 open Rio
 
@@ -174,6 +175,41 @@ def kvfsEngine : List String → String
       | some w => if w.staged.isSome then "1" else "0"
       | none => "?"
     s!"res={res} final={fin} staging={stg}"
+  | _ => "bad-op"
+
+def showTd : TdEv → String
+  | .attempt i => s!"A{i}"
+  | .skip i => s!"S{i}"
+def showAsmEv : AsmEv → String
+  | .parents i => s!"P{i}"
+  | .place i => s!"X{i}"
+  | .td e => showTd e
+
+/-- `asm15 <failing janitor ids|-> <id,alwaysTry,unpackF,parentF,placeF;...>` -/
+def asm15Engine : List String → String
+  | [tdf, parts] =>
+    let fails : List Nat := if tdf = "-" then [] else (tdf.splitOn ",").filterMap (·.toNat?)
+    let ps := (parts.splitOn ";").mapM (fun t => match t.splitOn "," with
+      | [i, a, u, p, x] => do pure (⟨← i.toNat?, a = "1", u = "1", p = "1", x = "1"⟩ : Part)
+      | _ => none)
+    match ps with
+    | some ps =>
+      let (evs, res, stack) := asmRun (fun i => fails.contains i) ps
+      -- observable projection: placement calls (X) and teardown attempts (A); parents steps and skips are
+      -- not visible to the injected placer/janitors
+      let obs (e : AsmEv) : Option String := match e with
+        | .place i => some s!"X{i}"
+        | .td (.attempt i) => some s!"A{i}"
+        | _ => none
+      let r := match res with
+        | .ok => "ok"
+        | .failed _ _ => "failed"
+      let td := match res with
+        | .ok => let (e, fe) := teardown (fun i => fails.contains i) stack
+                 s!" td={",".intercalate (e.filterMap (fun (x : TdEv) => match x with | TdEv.attempt i => some s!"A{i}" | _ => none))} tderr={match fe with | some _ => "true" | none => "false"}"
+        | _ => ""
+      s!"evs={",".intercalate (evs.filterMap obs)} res={r}{td}"
+    | none => "bad-op"
   | _ => "bad-op"
 
 def schemeOfTok : String → Option Scheme
